@@ -103,18 +103,35 @@ func readGpos5_1(p *parser.Parser, subtablePos int64) (Subtable, error) {
 		}
 		ligAttach := make([][]anchor.Table, componentCount)
 
-		for j := 0; j < int(componentCount); j++ {
+		// The component records follow: for every component one anchor
+		// offset per mark class, relative to the LigatureAttach table.
+		recPos := ligAttachPos + 2
+		for j := range ligAttach {
+			err = p.SeekPos(recPos)
+			if err != nil {
+				return nil, err
+			}
+			anchorOffsets := make([]uint16, 0, min(markClassCount, 1024))
+			for k := 0; k < markClassCount; k++ {
+				offs, err := p.ReadUint16()
+				if err != nil {
+					return nil, err
+				}
+				anchorOffsets = append(anchorOffsets, offs)
+			}
+			recPos += 2 * int64(markClassCount)
+
 			row := make([]anchor.Table, markClassCount)
-			for j := range row {
-				if offsets[j] == 0 {
+			for k, offs := range anchorOffsets {
+				if offs == 0 {
 					continue
 				}
-				row[j], err = anchor.Read(p, ligAttachPos+int64(offsets[j]))
+				row[k], err = anchor.Read(p, ligAttachPos+int64(offs))
 				if err != nil {
 					return nil, err
 				}
 			}
-			ligAttach[i] = row
+			ligAttach[j] = row
 		}
 
 		ligArray[i] = ligAttach
